@@ -253,6 +253,7 @@ static void do_kern (char **w, int n) {
     { conf_t old = conf; conf_defaults (); free (old); }
 }
 
+#ifndef HC_NO_MAIN
 int main (void) {
     char *line;
     signal (SIGPIPE, SIG_IGN);
@@ -277,3 +278,4 @@ int main (void) {
     free (conf);
     return 0;
 }
+#endif /* !HC_NO_MAIN */
